@@ -294,11 +294,17 @@ class AutoSerialize:
                 raise ValueError(
                     f"Expected a directory path for store='dir', but got file-like path '{path}'"
                 )
-            os.makedirs(path, exist_ok=True)
-            store_obj = LocalStore(path)
-            root = zarr.group(store=store_obj, overwrite=True)
-            self._recursive_save(self, root, skip_names, skip_types, compressors)
-            write_skip_metadata(root)
+            try:
+                os.makedirs(path, exist_ok=True)
+                store_obj = LocalStore(path)
+                root = zarr.group(store=store_obj, overwrite=True)
+                self._recursive_save(self, root, skip_names, skip_types, compressors)
+                write_skip_metadata(root)
+            except BaseException:
+                # The target did not exist (or was removed above): never leave a partial,
+                # but loadable, object behind when serialisation fails part-way
+                shutil.rmtree(path, ignore_errors=True)
+                raise
         else:
             raise ValueError(f"Unknown store type: {store}")
 
